@@ -29,8 +29,8 @@ LEVEL_TEXT = ("Coq theorems over the reals about the Gallina model coq/Model/Lin
               "executed Q instance [G]; matrix_determinant = the Leibniz sum over permutations for EVERY size and pivoting pattern given non-zero "
               "pivots, and any non-zero returned value is the Leibniz determinant [G] (Laplace expansion, alternating multilinearity, det(LU)); "
               "history independence of the repaired lru_cache state machine for all call sequences [G] and a refutation witness for the "
-              "pinned aliasing behaviour. NOT proved (tied by the correspondence/oracle only): non-zero pivots for spline collocation matrices "
-              "(total positivity); floating-point rounding.  Known finding: determinant 0 for some non-singular matrices with a vanishing leading minor.")
+              "pinned aliasing behaviour. lu_solve always returns a correct result on spline collocation matrices (total positivity, "
+              "Proofs/CollocationLU.v) and on positive definite / Gram matrices [G].  NOT proved: floating-point rounding.  Known finding: determinant 0 for some non-singular matrices with a vanishing leading minor.")
 LEVEL_NOTE = ("Trusted: Coq 8.16.1 kernel incl. vm_compute; standard-library real-number axioms as printed by Print Assumptions; the "
               "hand-written model's fidelity to geomdl/linalg.py is sampled by the correspondence check (1e-9 tolerance; call sequences "
               "of length <= 6); sqrt modelled by the squared norm; lru_cache modelled as an LRU association list")
